@@ -282,15 +282,26 @@ pub fn build(spec: &DocSpec) -> Built {
 
     // ---- a form xobject
     let form_id = a.get();
+    // a second form shares the first one's resource dictionary (one indirect object used twice)
+    let form2_id = a.get();
+    let form_res_id = a.get();
+    // a property list (optional-content group) that the marked content of every page names
+    let ocg_id = a.get();
     {
         let mut res = Vec::new();
         if let Some(f) = font_ids.first() {
             res.push(("Font", Val::dict(vec![("F1", Val::Ref(*f, 0))])));
         }
+        objs.push((form_res_id, Body::Plain(Val::dict(res))));
         objs.push((
             form_id,
-            Body::Stream(vec![(b("Type"), name("XObject")), (b("Subtype"), name("Form")), (b("BBox"), rect(100, 100)), (b("Resources"), Val::dict(res))], b"q 0.5 g 0 0 50 50 re f Q BT /F1 8 Tf (form) Tj ET".to_vec()),
+            Body::Stream(vec![(b("Type"), name("XObject")), (b("Subtype"), name("Form")), (b("BBox"), rect(100, 100)), (b("Resources"), Val::Ref(form_res_id, 0))], b"q 0.5 g 0 0 50 50 re f Q BT /F1 8 Tf (form) Tj ET".to_vec()),
         ));
+        objs.push((
+            form2_id,
+            Body::Stream(vec![(b("Type"), name("XObject")), (b("Subtype"), name("Form")), (b("BBox"), rect(60, 60)), (b("Resources"), Val::Ref(form_res_id, 0))], b"q 0.25 g 5 5 40 40 re f Q BT /F1 6 Tf (second) Tj ET".to_vec()),
+        ));
+        objs.push((ocg_id, Body::Plain(Val::dict(vec![("Type", name("OCG")), ("Name", Val::str(b"Layer"))]))));
     }
 
     // ---- shared resources
@@ -302,7 +313,7 @@ pub fn build(spec: &DocSpec) -> Built {
         for (i, f) in font_ids.iter().enumerate() {
             fonts.push((Bytes(format!("F{}", i + 1).into_bytes()), Val::Ref(*f, 0)));
         }
-        let mut xo = vec![(b("Fm1"), Val::Ref(form_id, 0))];
+        let mut xo = vec![(b("Fm1"), Val::Ref(form_id, 0)), (b("Fm2"), Val::Ref(form2_id, 0))];
         if !font_ids.is_empty() {
             xo.push((b("F1"), Val::Ref(form_id, 0)));
         }
@@ -313,6 +324,7 @@ pub fn build(spec: &DocSpec) -> Built {
             (b("Font"), Val::Dict(fonts)),
             (b("XObject"), Val::Dict(xo)),
             (b("ExtGState"), Val::Dict(vec![(b("GS1"), Val::Ref(gs_id, 0))])),
+            (b("Properties"), Val::Dict(vec![(b("MC1"), Val::Ref(ocg_id, 0))])),
             (b("ColorSpace"), Val::Dict(vec![(b("CS1"), Val::Array(vec![name("Separation"), name("Spot"), name("DeviceGray"), Val::dict(vec![("FunctionType", Val::Int(2)), ("Domain", Val::Array(vec![Val::Int(0), Val::Int(1)])), ("C0", Val::Array(vec![Val::Int(1)])), ("C1", Val::Array(vec![Val::Int(0)])), ("N", Val::Int(1))])]))])),
         ])
     };
@@ -345,8 +357,10 @@ pub fn build(spec: &DocSpec) -> Built {
         if !image_ids.is_empty() {
             content.extend_from_slice(format!("q 50 0 0 50 100 100 cm /Im{} Do Q ", 1 + p.use_image as usize % image_ids.len()).as_bytes());
         }
+        // marked content naming the shared property list
+        content.extend_from_slice(b"/OC /MC1 BDC 1 1 2 2 re f EMC ");
         if p.use_form {
-            content.extend_from_slice(b"/Fm1 Do ");
+            content.extend_from_slice(b"/Fm1 Do /Fm2 Do ");
             if !font_ids.is_empty() {
                 // /Font and /XObject are separate name spaces: the form is also registered as XObject /F1
                 content.extend_from_slice(b"/F1 Do ");
